@@ -209,7 +209,7 @@ Proof. vm_compute. split; reflexivity. Qed.
 (* ------------------------------------------------------------------------------------------
    The same discipline one level up, on the session model with the output queue (Session2): for
    ARBITRARY operation histories (publishes, acknowledgements, inbound traffic, reconnects, a transport
-   that refuses writes), between two reconnects the packets written are exactly, in order, the first
+   that refuses writes or fails hard), between two reconnects the packets written are exactly, in order, the first
    packets handed to the queue; packets are written only on an open, accepting socket; at the end of
    every operation on such a socket the queue is empty; reconnect() drops the rest. *)
 From PahoV Require Import Session2.Model Session2.Check Session2.Statements Session2.FifoProofs.
